@@ -107,6 +107,8 @@ def judge(prop, fam, res, tier, seed, t0, level="model_checking"):
         mine = flags & rel_flags
         if not mine:
             continue
+        if dev & fam.get("exempt", {}).get(prop, set()):
+            continue
         hit = None
         for k in known:
             if k["deviation_flag"] in dev and (not k.get("flags") or mine <= set(k["flags"])):
@@ -193,7 +195,157 @@ MPT = dict(
                  "sha3 collision freedom (hashes abstracted structurally in the specification)"],
 )
 
-FAMILIES = {"C01": MPT, "C02": MPT, "C14": MPT}
+
+# ----------------------------------------------------------------------------- family: statecache (C06, C07)
+
+def _sc_ops(events):
+    rs = [e for e in events if e["op"] == "reset"]
+    ops = [{k: e.get(k, "") for k in ("op", "b", "t", "h", "p", "k", "v")} for e in events if e["op"] != "reset"]
+    return dict(valtype=rs[0].get("valtype", "mut") if rs else "mut", small=rs[0].get("small", True) if rs else True, ops=ops)
+
+
+SC = dict(
+    name="statecache", component="statecache", trace_module="StateCacheTrace", trace_cfg="StateCacheTrace.cfg",
+    design={"quick": [("StateCache_MC", "StateCache_MC.cfg")], "thorough": [("StateCache_MC", "StateCache_MC.cfg")]},
+    gen={"quick": [dict(module="StateCacheGen", cfg="StateCacheGen_ex.cfg", workers=1),
+                   dict(module="StateCacheGen", cfg="StateCacheGen_sim.cfg", workers=1,
+                        extra=["-simulate", "num=3000", "-depth", "18", "-seed", "{seed}"])],
+         "thorough": [dict(module="StateCacheGen", cfg="StateCacheGen_ex4.cfg", workers=1, timeout=3000),
+                      dict(module="StateCacheGen", cfg="StateCacheGen_sim.cfg", workers=1, timeout=3000,
+                           extra=["-simulate", "num=60000", "-depth", "18", "-seed", "{seed}"])]},
+    exec_args=lambda tier, seed: (["-n", 2000, "-nlong", 6] if tier == "quick" else ["-n", 40000, "-nlong", 150]),
+    flags={"C06": {"wrongvalue", "panic", "unknown-op"},
+           "C07": {"musthit", "wrongvalue", "panic"}},
+    distinct=lambda s: s.get("distinct_signatures", 0),
+    rule="histories = (a) every behaviour of StateCache.tla of the generator depth over the scope chain A<-B<-C, fork B<-D, "
+         "gap E, duplicate object for B, two transactions, emitted by TLC (exhaustive) and TLC -simulate samples; (b) seeded random "
+         "block trees with forks/gaps/re-executed blocks and long chains (capacity); values are mutable (harness MutVal, real "
+         "LeafNode/FullNode) and are mutated after every set and every get; distinct_nontrivial = distinct "
+         "(operation, outcome) signatures of whole histories",
+    summary_keys=["hits", "misses", "panics", "go_histories"],
+    ops_of=_sc_ops,
+    # C07 promises visibility only "unless evicted for capacity": deviations in histories that exceeded the
+    # per-key capacity are C06's business (known finding EvictCloser), not C07's
+    exempt={"C07": {"EvictCloser"}},
+    assumptions=["two block-cache objects with the same hash carry the same previous hash",
+                 "a block cache and its transaction caches are not judged after the block's Commit (end of life)",
+                 "MustHit (C07 visibility after commit) asserted only in histories within the cache capacities "
+                 "(<=200 entries per key, chains < 2000) and for keys never passed to StateCache.Remove"],
+)
+
+# ----------------------------------------------------------------------------- C08: schedules of StateCacheConc.tla replayed on goroutines
+
+def _conc_cfg(d, name, algo, writes, committers, readers, invs, view=True):
+    with open(os.path.join(d, "StateCacheConc_%s.cfg" % name), "w") as f:
+        f.write("SPECIFICATION Spec\nCONSTANTS\n  Algo = \"%s\"\n  Blocks <- MCBlocks\n  Writes <- %s\n"
+                "  PreCommitted = 2\n  Committers <- %s\n  Readers <- %s\nINVARIANTS %s\n%sCHECK_DEADLOCK FALSE\n"
+                % (algo, writes, committers, readers, invs, "VIEW View\n" if view else ""))
+    return "StateCacheConc_%s.cfg" % name
+
+
+def run_c08(prop, tier, seed):
+    t0 = time.time()
+    d = vlib.scratch(prop + "_" + tier)
+    binary = vlib.build_vexec()
+    racebin = vlib.build_vexec(race=True)
+    res = Result()
+    safety = "HitIsTruth NoPoison Found"
+    writes_all = ["WritesB", "WritesBC", "WritesOnlyB", "WritesNone"]
+    # 1. design: the algorithm as coded now (link, then probe) is safe in every scope; the previous order is not
+    scopes = [("CB", "R_A1"), ("CB", "R_B"), ("CB", "R_C"), ("CC", "R_C"), ("CBC", "R_BC"), ("CBC", "R_A1C"), ("CBC", "R_BB"),
+              ("CBC", "R_ABC")]
+    if tier == "thorough":
+        scopes += [("CBC", "R_BBC"), ("CBC", "R_BCC")]
+    n = 0
+    for wr in writes_all:
+        for (cm, rd) in scopes:
+            n += 1
+            cfg = _conc_cfg(d, "d%d" % n, "link_then_probe", wr, cm, rd, safety)
+            s, t = vlib.design_check(d, "StateCacheConc_MC", cfg, workers=4, timeout=600, xmx="4g")
+            res.states += s
+            res.transitions += t
+    log("design: StateCacheConc (link_then_probe) safe in %d scopes, %d distinct states" % (n, res.states))
+    cfg = _conc_cfg(d, "mut", "probe_then_link", "WritesB", "CB", "R_B", safety)
+    vlib.design_check(d, "StateCacheConc_MC", cfg, workers=1, timeout=120, expect_violation="HitIsTruth")
+    log("design mutant (probe_then_link) violates HitIsTruth as expected (anti-vacuity)")
+    # 2. schedules: every maximal schedule of 1 committer + 1 reader (both step orders), samples of bigger scopes
+    hist = os.path.join(d, "sched.ndjson")
+    nh = 0
+    gens = []
+    for wr in writes_all:
+        for (cm, rd) in [("CB", "R_A1"), ("CB", "R_B"), ("CB", "R_C"), ("CC", "R_C"), ("CC", "R_B")]:
+            for algo in ("link_then_probe", "probe_then_link"):
+                gens.append((algo, wr, cm, rd, None))
+        for (cm, rd) in [("CBC", "R_BC"), ("CBC", "R_A1C"), ("CBC", "R_BB"), ("CBC", "R_ABC")]:
+            num = 150 if tier == "quick" else 4000
+            gens.append(("link_then_probe", wr, cm, rd, num))
+            gens.append(("probe_then_link", wr, cm, rd, num))
+    if tier == "thorough":
+        for wr in ("WritesB", "WritesBC"):
+            for rd in ("R_BB", "R_BC", "R_A1C"):
+                gens.append(("link_then_probe", wr, "CB", rd, None))   # every 1C+2R schedule
+    gi = 0
+    for (algo, wr, cm, rd, num) in gens:
+        gi += 1
+        cfg = _conc_cfg(d, "g%d" % gi, algo, wr, cm, rd, "Emit", view=False)
+        extra = ["-simulate", "num=%d" % num, "-depth", "60", "-seed", str(seed + gi)] if num else []
+        part = os.path.join(d, "sched_%d.ndjson" % gi)
+        k, st, tr_ = vlib.gen_histories(d, "StateCacheConc_MC", cfg, part, extra=extra, workers=1, timeout=1200, xmx="6g")
+        with open(hist, "a") as f, open(part) as pf:
+            shutil.copyfileobj(pf, f)
+        nh += k
+        res.states += st
+        res.transitions += tr_
+    log("TLC emitted %d schedules (%d generator configurations)" % (nh, gi))
+    # 3. replay on real goroutines through the yield hook
+    prefix = os.path.join(d, "trace")
+    summ = vlib.vexec(binary, ["sched", "-hist", hist, "-out", prefix, "-shards", 8], timeout=3000)
+    # 4. free-running stress under the race detector
+    sprefix = os.path.join(d, "stress")
+    nstress = 60 if tier == "quick" else 1500
+    ssum = vlib.vexec(racebin, ["scstress", "-seed", seed, "-n", nstress, "-out", sprefix, "-shards", 4], timeout=3000,
+                      env={"GORACE": "exitcode=0"})
+    if "DATA RACE" in ssum.get("_stderr", ""):
+        res.extra["race_report"] = ssum["_stderr"][-4000:]
+    shards = sorted(glob.glob(prefix + ".*.ndjson")) + sorted(glob.glob(sprefix + ".*.ndjson"))
+    vr = vlib.validate_traces(d, "StateCacheSchedTrace", "StateCacheSchedTrace.cfg", shards, timeout=1800)
+    for r in vr:
+        res.traces += r["traces"]
+        res.events += r["events"]
+        res.states += r["distinct"]
+        res.transitions += max(r["generated"] - 1, 0)
+        for b in r["bad"]:
+            res.bad.append((r["shard"], b))
+    res.summary = dict(summ, stress_runs=nstress)
+    res.samples = summ.get("samples", [])[:3]
+    res.extra["tlc_schedules"] = nh
+    res.extra["stress_runs_race_detector"] = nstress
+    res.extra["nbad_total"] = sum(r["nbad"] for r in vr)
+    log("replayed %d schedules + %d stress runs; %d deviating" % (nh, nstress, res.extra["nbad_total"]))
+    rc = judge(prop, C08, res, tier, seed, t0)
+    if rc == 0:
+        shutil.rmtree(d, ignore_errors=True)
+    log("%s %s: exit %d (%.1fs)" % (prop, tier, rc, time.time() - t0))
+    return rc
+
+
+C08 = dict(
+    name="statecache-conc", component="sched", custom=run_c08,
+    flags={"C08": {"wrongvalue", "poison", "notfound", "aftercommit", "panic", "race"}},
+    distinct=lambda s: s.get("distinct_schedules", 0),
+    rule="schedules = every maximal interleaving (at the granularity of shared-map accesses = yield points) of 1 committer + 1 "
+         "reader for every reader placement (ancestor / committing block / descendant) and write pattern, emitted by TLC from "
+         "StateCacheConc.tla for both step orders, plus TLC -simulate samples of 2 committers + 2..3 readers; each replayed "
+         "deterministically on real goroutines through the verif yield hook; plus free-running 8-committer/32-reader runs under "
+         "the Go race detector; distinct_nontrivial = distinct schedules replayed",
+    summary_keys=["schedules", "stress_runs"],
+    ops_of=lambda ev: ev,
+    assumptions=["the Go race detector decides the 'no data race' clause (a specification cannot see races)",
+                 "schedules are replayed as sequences of process ids: a released goroutine runs to its next yield point",
+                 "block tree of the scopes is a chain; forks are covered sequentially by C06"],
+)
+
+FAMILIES = {"C01": MPT, "C02": MPT, "C14": MPT, "C06": SC, "C07": SC, "C08": C08}
 PROPS = dict(FAMILIES)
 
 
